@@ -48,7 +48,8 @@ func drawHostileInput(t *rapid.T) (string, string) {
 
 func checkTiling(c *hx.Case, mode string, src []byte, toks hclsyntax.Tokens, start hcl.Pos) (clusterSplit bool) {
 	skip := 0
-	if bytes.HasPrefix(src, []byte("\xef\xbb\xbf")) {
+	// a byte order mark is skipped only at the very beginning of a file (start byte 0)
+	if start.Byte == 0 && bytes.HasPrefix(src, []byte("\xef\xbb\xbf")) {
 		skip = 3
 	}
 	pt := ref.NewPosTable(src, skip)
